@@ -154,8 +154,25 @@ def alphabet(tier):
     return cmds
 
 
+def peer_pairs(tier):
+    """another session of the same user changes flags (UID STORE), and the very next command of the session under test
+    acts on them: EXPUNGE / UID EXPUNGE / CLOSE-like removal and COPY / MOVE must see the mailbox's flags, not the ones
+    this session saw last"""
+    uidsets = [b'102', b'102:103', b'*', b'1:*']
+    peers = [('peer', ('store', s, md, fl, True)) for s in uidsets for md in (b'+FLAGS', b'-FLAGS', b'FLAGS')
+             for fl in ((b'\\Deleted',), (b'\\Seen', b'\\Deleted'), (b'\\Flagged',))]
+    mine = [('expunge', None), ('expunge', b'102:103'), ('expunge', b'1:*'), ('copy', b'1:*', b'Dest', False, False),
+            ('copy', b'2', b'Dest', False, True), ('copy', b'102:103', b'Dest', True, True), ('fetch', b'2', False, False)]
+    pre = [('store', b'1:*', b'+FLAGS', (b'\\Deleted',), False), ('store', b'2:3', b'+FLAGS.SILENT', (b'\\Deleted',), False)]
+    out = [(p, m) for p in peers for m in mine]
+    out += [(q, p, m) for q in pre for p in peers for m in mine[:3]]
+    return out
+
+
 def wire(cmd):
     k = cmd[0]
+    if k == 'peer':
+        return wire(cmd[1])
     if k == 'store':
         _, s, md, fl, uid = cmd
         return (b'UID ' if uid else b'') + b'STORE ' + s + b' ' + md + b' (' + b' '.join(fl) + b')', None
@@ -175,6 +192,8 @@ def wire(cmd):
 
 def apply_model(model, cmd):
     k = cmd[0]
+    if k == 'peer':
+        return apply_model(model, cmd[1])
     if k == 'store':
         _, s, md, fl, uid = cmd
         return model.store(s, md.replace(b'.SILENT', b''), fl, uid)
@@ -291,8 +310,22 @@ async def run_program(prog, examine=False, backend='dict'):
     for u in r['untagged']:
         view.apply(u, 'select')
     sig = []
+    b = None
+    if any(c[0] == 'peer' for c in prog):
+        b = await w.client('b', **({} if backend == 'dict' else dict(user=b'alice', pw=b'apass')))
+        await b.cmd(b'SELECT INBOX')
     for step, cmd in enumerate(prog):
         line, lits = wire(cmd)
+        if cmd[0] == 'peer':
+            # the other session acts; the session under test is not polled (its next command must cope by itself)
+            r = await b.cmd(line, lits or ())
+            where = f'step {step} (other session) {line.decode()}'
+            expect = apply_model(model, cmd)
+            if not r['answered'] or r['tagged'].split()[1] != expect:
+                errors.append(f'{where}: tagged {r["tagged"]!r} but the model says {expect.decode()}')
+                break
+            sig.append((b'peer ' + line, expect, 0))
+            continue
         r = await a.cmd(line, lits or ())
         where = f'step {step} {line.decode()}'
         if not r['answered']:
@@ -368,7 +401,11 @@ def programs(tier, seed):
             yield p
         for _ in range(1500):
             yield (rnd.choice(al), rnd.choice(al), rnd.choice(al))
+        for p in peer_pairs(tier):
+            yield p
     else:
+        for p in peer_pairs(tier):
+            yield p
         for p in itertools.product(al, repeat=2):
             yield p
         for _ in range(20000):
@@ -387,6 +424,8 @@ def bounded_refmodel(label, backend='dict'):
             rnd = random.Random(seed)
             al = alphabet(tier)
             progs = [(c,) for c in al] + [tuple(rnd.choice(al) for _ in range(rnd.choice((2, 3)))) for _ in range(400 if tier == 'quick' else 6000)]
+            pp = peer_pairs(tier)
+            progs += pp if tier != 'quick' else pp[::3]
             progs = [('@' + backend,) + p for p in progs]
         res.exhaustive = False if tier == 'quick' else False
         res.note = 'single commands and pairs: exhaustive over the stated alphabet; longer programs: seeded sample'
@@ -396,7 +435,8 @@ def bounded_refmodel(label, backend='dict'):
                 res.distinct.add(sig)
                 if errs:
                     res.fail(f'{label}/agrees_with_reference_model',
-                             [wire(c)[0].decode() for c in prog if not isinstance(c, str)], errs[:3])
+                             [('(other session) ' if c[0] == 'peer' else '') + wire(c)[0].decode()
+                              for c in prog if not isinstance(c, str)], errs[:3])
                 elif len(res.samples) < 2:
                     res.samples.append(dict(program=[wire(c)[0].decode() for c in prog if not isinstance(c, str)], result='agrees'))
         return res
